@@ -25,6 +25,7 @@ func init() {
 }
 
 func runC15(c *Ctx, r *Report) {
+	defer c12Provision(c, r, "C15.R18") // "that JSON loads and provisions", with placeholders: an allow entry of the proxy_protocol handler given as a placeholder for a range or a single address provisions
 	c15R1(c, r, "C15.R1")
 	c15R2(c, r, "C15.R2")
 	c15R3(c, r, "C15.R3")
